@@ -23,7 +23,7 @@ Qed.
 Section Proofs.
   Variable g : vgraph.
   Variable single : bool.
-  Variable sel : list event -> nat -> list nat.
+  Variable sel : list event -> nat -> vret.
   Notation vrec := (visit_rec g single sel).
 
   Definition valid (path : list nat) : Prop := forall x, In x path -> x < List.length g.
@@ -59,7 +59,7 @@ Section Proofs.
     assert (Hnd' : NoDup (path ++ [n])) by (apply nodup_snoc; assumption).
     assert (Hv' : valid (path ++ [n])) by (apply valid_snoc; assumption).
     pose proof (path_bound _ Hnd' Hv') as Hb. rewrite app_length in Hb. cbn [List.length] in Hb.
-    assert (Hk : fold_kids (vrec f (path ++ [n])) (path ++ [n]) (sel (fst st ++ [EIn n]) n) (fst st ++ [EIn n], snd st)
+    assert (Hk : fold_kids (vrec f (path ++ [n])) (path ++ [n]) (sel_kids (sel (fst st ++ [EIn n]) n)) (fst st ++ [EIn n], snd st)
                  <> OutOfFuel).
     { apply fold_kids_no_oof. intros st0 c Hc. apply IH; try assumption. rewrite app_length. cbn [List.length]. lia. }
     destruct (fold_kids _ _ _ _) as [st2| |]; cbn [rbind]; [discriminate|discriminate|congruence].
@@ -87,7 +87,7 @@ Section Proofs.
     apply memn_not_in in E. destruct (H st c E (Hr c (or_introl eq_refl))) as [st1 ->]. cbn [rbind]. apply IH. exact Hr'.
   Qed.
 
-  Lemma visit_rec_ok : (forall tr n c, In c (sel tr n) -> c < List.length g) ->
+  Lemma visit_rec_ok : (forall tr n c, In c (sel_kids (sel tr n)) -> c < List.length g) ->
     forall fuel path st n,
     NoDup path -> valid path -> ~ In n path -> n < List.length g -> List.length g - List.length path < fuel ->
     exists st', vrec fuel path st n = Ok st'.
@@ -100,7 +100,7 @@ Section Proofs.
       assert (Hv' : valid (path ++ [n])) by (apply valid_snoc; assumption).
       pose proof (path_bound _ Hnd' Hv') as Hb. rewrite app_length in Hb. cbn [List.length] in Hb.
       destruct (fold_kids_ok (vrec f (path ++ [n])) (path ++ [n])) with
-        (ks := sel (fst st ++ [EIn n]) n) (st := (fst st ++ [EIn n], snd st)) as [st2 ->].
+        (ks := sel_kids (sel (fst st ++ [EIn n]) n)) (st := (fst st ++ [EIn n], snd st)) as [st2 ->].
       + intros st0 c Hc Hcl. apply IH; try assumption. rewrite app_length. cbn [List.length]. lia.
       + intros c Hc. eapply Hsel. exact Hc.
       + cbn [rbind]. eauto.
@@ -108,7 +108,7 @@ Section Proofs.
   Qed.
 
   Theorem visit_total root :
-    (forall tr n c, In c (sel tr n) -> c < List.length g) -> root < List.length g ->
+    (forall tr n c, In c (sel_kids (sel tr n)) -> c < List.length g) -> root < List.length g ->
     exists st, visit g single sel root = Ok st.
   Proof.
     intros Hsel Hr. unfold visit. apply visit_rec_ok; try assumption.
@@ -127,7 +127,7 @@ Section Proofs.
   | D_skip path st n : nth_error g n = Some VInner -> single = true -> In n (snd st) -> dfs path st n st
   | D_node path st n st2 :
       nth_error g n = Some VInner -> (single = false \/ ~ In n (snd st)) ->
-      dfs_kids (path ++ [n]) (fst st ++ [EIn n], snd st) (sel (fst st ++ [EIn n]) n) st2 ->
+      dfs_kids (path ++ [n]) (fst st ++ [EIn n], snd st) (sel_kids (sel (fst st ++ [EIn n]) n)) st2 ->
       dfs path st n (fst st2 ++ [EOut n], n :: snd st2)
   with dfs_kids : list nat -> vstate -> list nat -> vstate -> Prop :=
   | K_nil path st : dfs_kids path st [] st
@@ -270,7 +270,13 @@ Section Proofs.
     (forall path st n st', dfs path st n st' -> ~ In n path ->
        forall stk, steps (mkL (FNode n :: stk) path (snd st) (fst st)) (mkL stk path (snd st') (fst st'))) /\
     (forall path st ks st', dfs_kids path st ks st' ->
-       forall stk, steps (mkL (FIter ks :: stk) path (snd st) (fst st)) (mkL stk path (snd st') (fst st'))).
+       (* the callback returned an iterable: an iterator frame on the stack *)
+       (forall stk, steps (mkL (FIter ks :: stk) path (snd st) (fst st)) (mkL stk path (snd st') (fst st'))) /\
+       (* it returned a single node: checked against `visiting` at once and pushed itself *)
+       (forall c, ks = [c] -> forall stk,
+          steps (if memn c path then mkL stk path (snd st) (fst st ++ [ECycle c path])
+                 else mkL (FNode c :: stk) path (snd st) (fst st))
+                (mkL stk path (snd st') (fst st')))).
   Proof.
     apply dfs_mutind.
     - intros path st n t E _ stk. apply steps_one. unfold step. cbn [l_stack]. rewrite E. reflexivity.
@@ -278,22 +284,40 @@ Section Proofs.
       apply memn_not_in in Hn. rewrite Hn.
       assert (Hc : single && memn n (snd st) = true) by (apply skip_cond; auto). rewrite Hc. reflexivity.
     - intros path st n st2 E Hs _ IH Hn stk.
-      eapply steps_step.
-      { unfold step. cbn [l_stack l_path l_visited l_trace]. rewrite E.
-        pose proof Hn as Hn'. apply memn_not_in in Hn'. rewrite Hn'.
-        assert (Hc : single && memn n (snd st) = false).
-        { destruct Hs as [->|Hs]; [reflexivity|]. apply memn_not_in in Hs. rewrite Hs. apply andb_false_r. }
-        rewrite Hc. reflexivity. }
-      eapply steps_trans; [apply (IH (FNode n :: stk))|].
-      apply steps_one. unfold step. cbn [l_stack l_path l_visited l_trace fst snd]. rewrite E.
-      assert (Hm : memn n (path ++ [n]) = true) by (apply memn_in; apply in_or_app; right; left; reflexivity).
-      rewrite Hm, removelast_last. reflexivity.
-    - intros path st stk. apply steps_one. reflexivity.
-    - intros path st c ks st' Hc _ IH stk. eapply steps_step; [|apply IH].
-      unfold step. cbn [l_stack l_path]. apply memn_in in Hc. rewrite Hc. reflexivity.
-    - intros path st c ks st1 st' Hc _ IH1 _ IH2 stk. eapply steps_step.
-      { unfold step. cbn [l_stack l_path]. pose proof Hc as Hc'. apply memn_not_in in Hc'. rewrite Hc'. reflexivity. }
-      eapply steps_trans; [apply IH1; exact Hc|apply IH2].
+      assert (Hc : single && memn n (snd st) = false).
+      { destruct Hs as [->|Hs]; [reflexivity|]. apply memn_not_in in Hs. rewrite Hs. apply andb_false_r. }
+      pose proof Hn as Hn'. apply memn_not_in in Hn'.
+      assert (Hout : steps (mkL (FNode n :: stk) (path ++ [n]) (snd st2) (fst st2))
+                           (mkL stk path (n :: snd st2) (fst st2 ++ [EOut n]))).
+      { apply steps_one. unfold step. cbn [l_stack l_path l_visited l_trace fst snd]. rewrite E.
+        assert (Hm : memn n (path ++ [n]) = true) by (apply memn_in; apply in_or_app; right; left; reflexivity).
+        rewrite Hm, removelast_last. reflexivity. }
+      destruct (sel (fst st ++ [EIn n]) n) as [ks|c] eqn:Es; cbn [sel_kids] in IH.
+      + eapply steps_step.
+        { unfold step. cbn [l_stack l_path l_visited l_trace]. rewrite E, Hn', Hc. cbv zeta. rewrite Es. reflexivity. }
+        eapply steps_trans; [apply (proj1 IH (FNode n :: stk))|exact Hout].
+      + pose proof (proj2 IH c eq_refl (FNode n :: stk)) as H2. cbn [fst snd] in H2.
+        destruct (memn c (path ++ [n])) eqn:Em.
+        * eapply steps_step.
+          { unfold step. cbn [l_stack l_path l_visited l_trace]. rewrite E, Hn', Hc. cbv zeta. rewrite Es, Em. reflexivity. }
+          eapply steps_trans; [exact H2|exact Hout].
+        * eapply steps_step.
+          { unfold step. cbn [l_stack l_path l_visited l_trace]. rewrite E, Hn', Hc. cbv zeta. rewrite Es, Em. reflexivity. }
+          eapply steps_trans; [exact H2|exact Hout].
+    - intros path st. split.
+      + intros stk. apply steps_one. reflexivity.
+      + intros c E. discriminate.
+    - intros path st c ks st' Hc Hk IH. split.
+      + intros stk. eapply steps_step; [|apply (proj1 IH)].
+        unfold step. cbn [l_stack l_path]. apply memn_in in Hc. rewrite Hc. reflexivity.
+      + intros c0 E stk. injection E as <- ->. apply memn_in in Hc. rewrite Hc.
+        inversion Hk; subst. cbn [fst snd]. apply steps_refl.
+    - intros path st c ks st1 st' Hc Hd IH1 Hk IH2. split.
+      + intros stk. eapply steps_step.
+        { unfold step. cbn [l_stack l_path]. pose proof Hc as Hc'. apply memn_not_in in Hc'. rewrite Hc'. reflexivity. }
+        eapply steps_trans; [apply IH1; exact Hc|apply (proj1 IH2)].
+      + intros c0 E stk. injection E as <- ->. pose proof Hc as Hc'. apply memn_not_in in Hc'. rewrite Hc'.
+        inversion Hk; subst. apply IH1. exact Hc.
   Qed.
 
   Lemma steps_run s s' : steps s s' -> l_stack s' = [] ->
